@@ -879,7 +879,7 @@ package gorm
 //@   in gorm.(*DB).Save
 //@   do zeroKeyPartSeen = ite(result1, 1, zeroKeyPartSeen)
 //@ func (*DB).Save
-//@   tags C16
+//@   tags C16 C10
 //@   assumes handle-well-formed: db.clone > 0 || (db.Statement != nil && db.Statement.DB == db)
 //@   loop "range tx.Statement.Schema.PrimaryFields" entry-do keyCheckEntered = 1
 //@   loop "range tx.Statement.Schema.PrimaryFields" entry-do zeroKeyPartSeen = 0
@@ -890,12 +890,12 @@ package gorm
 //@   in gorm.(*DB).Save
 //@   min-sites 1
 //@   entry keyCheckEntered == 0 && allKeyPartsSet == 0
-//@   assert every-key-part-was-checked: keyCheckEntered == 1 ==> allKeyPartsSet == 1 [C16]
+//@   assert every-key-part-was-checked: keyCheckEntered == 1 ==> allKeyPartsSet == 1 [C16,C10]
 //@ site save-reads-the-key-from-the-value
 //@   match calldyn Field.ValueOf
 //@   in gorm.(*DB).Save
 //@   min-sites 1
-//@   assert key-part-of-the-saved-value: arg1 == reflectValue [C16]
+//@   assert key-part-of-the-saved-value: arg1 == reflectValue [C16,C10]
 
 //@ # ---------- C10: Save writes all fields unless the chain itself selected some ----------
 //@ # Omit only narrows "all fields"; it is not a selection. Without "*" the struct update would skip zero values.
